@@ -115,7 +115,28 @@ type Event struct {
 }
 
 // Path is one enumerated execution path.
+// KernelFact: inside the given loops, element Idx of container Cont receives Val.
+type KernelFact struct {
+	Cont  string
+	Idx   []*sym.Term
+	Val   *sym.Term
+	Loops []LoopCtx
+}
+
+func (k KernelFact) String() string {
+	var ix []string
+	for _, i := range k.Idx {
+		ix = append(ix, i.String())
+	}
+	var ls []string
+	for _, l := range k.Loops {
+		ls = append(ls, l.Var+"="+l.Lo.String()+".."+l.Hi.String())
+	}
+	return "for " + strings.Join(ls, ",") + ": " + k.Cont + "[" + strings.Join(ix, ",") + "] := " + k.Val.String()
+}
+
 type Path struct {
+	Facts  []KernelFact
 	Conds  []CondV
 	Events []Event
 	Ret    Value
@@ -154,6 +175,9 @@ type Config struct {
 	Spec func(name string, args []*sym.Term, extra []Value) (*sym.Term, bool)
 	// InlineOps: operation names (lower case) whose bodies are inlined instead of spec-applied.
 	InlineOps map[string]bool
+	// KernelMode: container elements are locations cached by (container, index); writes to elements inside
+	// counted loops are recorded as kernel facts "element idx of container := value" when the loop closes.
+	KernelMode bool
 }
 
 type Interp struct {
@@ -172,6 +196,8 @@ type Interp struct {
 	loopDepth int
 	// Loops currently open (outermost first), for events recorded inside loops.
 	loops []LoopCtx
+	elemCache map[string]*Loc
+	elemMeta  map[*Loc]*elemInfo
 }
 
 // LoopCtx describes an enclosing counted loop: bound symbol and inclusive bounds.
@@ -233,8 +259,13 @@ func (it *Interp) runOnce(fd *ast.FuncDecl) (p *Path, und *Undecided) {
 	// receiver
 	var recv *Loc
 	if fd.Recv != nil && len(fd.Recv.List[0].Names) > 0 {
-		recv = it.newLoc("r0", sym.Sym("r0"))
-		frame[it.info.Defs[fd.Recv.List[0].Names[0]]] = recv
+		robj := it.info.Defs[fd.Recv.List[0].Names[0]]
+		if r := containerRank(robj.Type()); r > 0 && it.cfg.KernelMode {
+			frame[robj] = &Container{Name: "r0", Sym: sym.Sym("r0"), Rank: r}
+		} else {
+			recv = it.newLoc("r0", sym.Sym("r0"))
+			frame[robj] = recv
+		}
 	}
 	it.path.Recv = recv
 	k := 0
@@ -282,6 +313,9 @@ func (it *Interp) runOnce(fd *ast.FuncDecl) (p *Path, und *Undecided) {
 		}
 	}
 	it.block(fd.Body.List)
+	if it.cfg.KernelMode {
+		it.closeElems("", nil)
+	}
 	it.path.Ret = it.ret
 	return it.path, nil
 }
@@ -1079,11 +1113,71 @@ func (it *Interp) callMethod(fn *types.Func, call *ast.CallExpr) Value {
 	return nil
 }
 
+type elemInfo struct {
+	cont string
+	idx  []*sym.Term
+}
+
 func (it *Interp) elemLoc(c *Container, idx []*sym.Term) *Loc {
 	args := append([]*sym.Term{c.Sym}, idx...)
-	l := it.newLoc("elem", sym.Fn("elem", args...))
-	l.Const = true
+	init := sym.Fn("elem", args...)
+	if !it.cfg.KernelMode {
+		l := it.newLoc("elem", init)
+		l.Const = true
+		return l
+	}
+	key := init.String()
+	if it.elemCache == nil {
+		it.elemCache = map[string]*Loc{}
+		it.elemMeta = map[*Loc]*elemInfo{}
+	}
+	if l, ok := it.elemCache[key]; ok {
+		return l
+	}
+	l := it.newLoc("elem", init)
+	l.Const = c.Name != "r0"
+	it.elemCache[key] = l
+	it.elemMeta[l] = &elemInfo{cont: c.Sym.String(), idx: idx}
 	return l
+}
+
+// closeElems records kernel facts for cached elements whose index mentions the bound variable v (or all, if v == "").
+func (it *Interp) closeElems(v string, loops []LoopCtx) {
+	if it.elemCache == nil {
+		return
+	}
+	var keys []string
+	for k := range it.elemCache {
+		keys = append(keys, k)
+	}
+	sortStrings(keys)
+	for _, k := range keys {
+		l := it.elemCache[k]
+		m := it.elemMeta[l]
+		dep := v == ""
+		if v != "" {
+			for _, ix := range m.idx {
+				if ix.DependsOn(sym.SymAtom(v)) {
+					dep = true
+				}
+			}
+		}
+		if !dep {
+			continue
+		}
+		if l.Written {
+			it.path.Facts = append(it.path.Facts, KernelFact{Cont: m.cont, Idx: m.idx, Val: l.Val, Loops: append([]LoopCtx{}, loops...)})
+		}
+		delete(it.elemCache, k)
+	}
+}
+
+func sortStrings(s []string) {
+	for i := 1; i < len(s); i++ {
+		for j := i; j > 0 && s[j] < s[j-1]; j-- {
+			s[j], s[j-1] = s[j-1], s[j]
+		}
+	}
 }
 
 func (it *Interp) containerMethod(c *Container, name string, call *ast.CallExpr) Value {
@@ -1560,6 +1654,9 @@ func (it *Interp) forStmt(x *ast.ForStmt) {
 			it.undecided(pos, "float local changed kind in loop")
 		}
 		it.env[s.lvl][s.obj] = finish(cur, s.sym, s.old, s.obj.Name())
+	}
+	if it.cfg.KernelMode {
+		it.closeElems(bname, append(append([]LoopCtx{}, it.loops...), LoopCtx{Var: bname, Lo: lo, Hi: hi}))
 	}
 }
 
